@@ -348,7 +348,7 @@ def register(props):
                 "scope adds 5, a one-of over objects 5, an inline object 3, a list or map 1, units 3, enum display 2; outputs and "
                 "signal data schemas start one map deeper than an input does... two: 12), 10 % at 33-36 (must be rejected with an "
                 "error, never a hang or panic: outside the property), the rest 12-31; plus a fixed ladder: for scope / list / map / "
-                "one-of a chain over an integer with units at every nesting from 27 to 37, as input and as output; every case has "
+                "one-of a chain over an integer with units at every nesting from 28 to 35 the kind can reach, as input and as output; every case has "
                 "5 s watchdogs on ReadSchema, Close and the server's return, and the runner closes all four pipe ends; a ReadSchema "
                 "error at nesting <= 32 is a violation with the schema as the failing input; non-trivial = read through the "
                 "transport, nesting >= 20, at least four node kinds",
